@@ -190,6 +190,10 @@ pub enum Event<E: Effect> {
         request_id: u64,
         result: Result<ValueWithHeap, quiver_core::error::Error>,
         stats: Option<quiver_core::executor::ExecutionStats>,
+        /// The process, and how many locals it holds now that it has completed. A REPL line that
+        /// short-circuits stores fewer locals than it was compiled to.
+        process_id: ProcessId,
+        locals_count: usize,
     },
 
     /// Response to GetStatuses
